@@ -157,7 +157,7 @@ func (d *nestDispatch) ServeHTTP(w http.ResponseWriter, r *http.Request) {
 // fresh transcoder, also when B fails (corrupt payload) while A is active, and no pooled object ends up with
 // two owners.
 func hC14Nested() {
-	cfg, ok := pickAdapterCfg()
+	cfg, ok := pickAdapterCfgNarrow()
 	if !ok {
 		return
 	}
